@@ -183,11 +183,14 @@ def run_group(comp, g, meta, workdir, tier, backend=None, secondary=False):
     if not g.no_loop_contracts:
         gi += ['--apply-loop-contracts']
     gi += [base + '.a.gb', base + '.b.gb']
-    rc, out, err, dt = sh(' '.join(gi), 300)
-    res['instrument_log'] = (out + err)[-3000:]
-    if rc != 0:
-        res['infra'] = 'goto-instrument failed: ' + (err + out)[-1500:]
-        return res
+    if g.enforce or g.replace:
+        rc, out, err, dt = sh(' '.join(gi), 300)
+        res['instrument_log'] = (out + err)[-3000:]
+        if rc != 0:
+            res['infra'] = 'goto-instrument failed: ' + (err + out)[-1500:]
+            return res
+    else:
+        shutil.copy(base + '.a.gb', base + '.b.gb')   # pure lemma group: nothing to instrument
     checks = [c for c in CBMC_CHECKS if c not in getattr(comp, 'nochecks', [])]
     flags = checks + ['--json-ui', '--trace'] + backend_flags(backend or g.backend) + g.flags
     if g.unwind:
@@ -341,9 +344,12 @@ def main():
                 results.append(f.result())
         import verdict
         if a.debug:
+            seen = set()
             for r in results:
                 if r['infra']:
-                    print('INFRA', r['group'], r['infra'][:600])
+                    if r['infra'] not in seen:
+                        print('INFRA', r['group'], r['infra'][:600])
+                    seen.add(r['infra'])
                 for o in r['obligations']:
                     if o['status'] != 'SUCCESS' and 'VACUITY' not in o['tags']:
                         print('FAIL', r['group'], o['name'], o['tags'], o['description'][:110], 'line', o['line'])
